@@ -96,6 +96,16 @@ type c02Tok struct {
 	// Keys: the storage names of a service token's records, read from the physical log of its
 	// creation (fault predicates for its revocation, evidence about its raw record)
 	Keys *c02Keys `json:"-"`
+	// Up / Kids: the service token that created this one and the tokens it created: a tree
+	// revocation (and the expiry) of a token takes its descendants along, in whatever namespace
+	// they live. Limbo: an ancestor's revocation is under way or ended in an error; the reference
+	// does not decide until the harness has settled the state.
+	Up    *c02Tok   `json:"-"`
+	Kids  []*c02Tok `json:"-"`
+	Limbo bool      `json:"ancestor_revocation_unsettled,omitempty"`
+	// MaybeOrphan: a revoke-orphan of the creator failed half-way; this token may or may not still
+	// be attached to it (both are live states; it matters when an ancestor is tree-revoked later)
+	MaybeOrphan bool `json:"-"`
 }
 
 // liveness: "live", "dead" or "unknown" with the reason.
@@ -108,6 +118,9 @@ func (t *c02Tok) liveness(remote string, now time.Time) (string, string) {
 	}
 	if t.Revoked {
 		return "dead", "revoked"
+	}
+	if t.Limbo {
+		return "unknown", "ancestor-revocation-unsettled"
 	}
 	if t.ParentTok != nil {
 		if s, why := t.ParentTok.liveness("", now); s == "dead" && !t.ParentTok.Forged {
